@@ -226,7 +226,8 @@ PROPS["C06"] = {
               "every 1..=2-byte en-passant field for either side to move on boards where every file has a double-stepped pawn (accepted exactly for '-' and file a-h + the mover's capture rank, decoded exactly); every 1..=4-byte castling field with all rooks at home (accepted exactly for '-' and the non-empty subsequences of KQkq, decoded exactly). Lengths are enumerated concretely, contents symbolic.",
     "outside": "NOT DECIDED: the placement field on symbolic bytes. Measured: two symbolic bytes inside the 64-square loop already exceed 12 GB (the file counter becomes symbolic and the hand-written slice patterns fork on every byte; a symbolic slice LENGTH alone forks every pattern). "
                "So 'never panics on arbitrary bytes' is decided for the five fields after the placement only, and 'decoded placement == text' only for concrete texts (c05_three_constructors_agree). Rust-level panics (overflow, index, unwrap) are checked; the parser contains no unsafe code.",
-    "stubs": [], "assumptions": ["the builder cannot assemble overlapping piece sets (place() refuses occupied squares): boards are symbolic partitions"],
+    "stubs": ["builder queries only: chess_lookup::{rook_moves,bishop_moves,knight_moves,king_moves,pawn_attacks_moves,between,rook_rays,bishop_rays} -> loop-free geometry (lemmas + C08/C09); with the real magic tables and a symbolic king square one partition took ~600 s"],
+    "assumptions": ["the builder cannot assemble overlapping piece sets (place() refuses occupied squares): boards are symbolic partitions"],
     "level_text": "Acceptance by validate()/build() is decided against C06's list for a fully symbolic board - one king per side, <= 16 pieces per side, side not to move not in check, rights only with king and rook at home, en-passant marker only behind an enemy pawn on its double-step rank - in both directions (accepted => playable, playable => accepted), with the error kind. "
                   "The parser is shown total and exact on every byte string (bounded length) in the fields after the placement.",
     "level_note": "The parser funnels every text into the same validate() that the builder query decides; what is not decided is the byte-level decoding of the placement field (stated).",
@@ -234,13 +235,13 @@ PROPS["C06"] = {
 }
 PROPS["C05"] = {
     "title": "FEN text and board are inverse representations",
-    "groups": [dict(C06_FUNC, only="^c05_"),
+    "groups": [dict(C06_FUNC, only="^c05_", seeded_family={"pattern": r"_k_(\d+)$", "count": 16, "always": {"*": []}, "thorough_all": True}),
                # the parser accepts every canonical en-passant / castling field (C06's field queries), and the
                # builder's place/remove keep the hash a function of the placement (C04's builder queries)
                dict(C06_FUNC, only="^c06_(en_passant|castling)_field"),
                {"crate": "core", "module": "c04", "only": "c04_builder", "timeout_q": 900}],
     "functions": ["core::fmt::Display for chess_movegen::Board (piece runs, side, CastleRights::fmt, en-passant square, clocks through core::fmt)", "Board::standard, fen::parse_fen, BoardBuilder::{place,castle_rights,build} on the start position"],
-    "bounds": "writer: 5 concretised shapes (start position for either side, en-passant square for White to move and for Black to move, partial rights Kq) with both clocks symbolic inside a digit-count class (1-4 digits; all of 0..9999 is covered across the shapes); "
+    "bounds": "writer: 25 concretised shapes (start position for either side, en-passant squares on the a-, d-, e- and h-file for either side to move, all 16 castling-right subsets, partial rights Kq in an endgame) with both clocks symbolic inside a digit-count class (1-4 digits; all of 0..9999 is covered across the shapes); "
               "the real writer's bytes and length are compared with a reference canonical text. Three constructors: concrete start position, all fields.",
     "outside": "symbolic piece placement in the text (see C06: the parser cannot take symbolic placement bytes; the writer half alone is cheap but its run-length output makes the text length symbolic) - placements are concretised per shape; "
                "the parser half of the round trip on 32-piece texts exceeds 12 GB even with only the clock digits symbolic and is decided on two-king texts in C06",
@@ -251,33 +252,38 @@ PROPS["C05"] = {
     "design_ref": "DESIGN.md section 4 C05/C06",
 }
 
-ENG = {"crate": "engine", "flags": NODEF + STUB, "timeout_q": 1500, "timeout_t": 5000, "mem_q": 20, "mem_t": 45, "jobs": 3, "jobs_t": 1}
+ENG = {"crate": "engine", "no_native_replay": True, "flags": NODEF + STUB, "timeout_q": 1500, "timeout_t": 5000, "mem_q": 20, "mem_t": 45, "jobs": 2, "jobs_t": 1}
 ENG_STUBS = ["chess_movegen::Board::legals -> a symbolic move list under the iterator invariant, the same on every pass (that the real list is exactly the legal moves: C01; that iterating it yields each once: C10)",
              "Engine::alphabeta at depth 1 -> oracle through the hook Timeout::verif_oracle: arbitrary score + 0..=2 timeout polls, contract A 'not a sentinel unless the limit has expired'",
              "ThreeFold::get -> arbitrary count (only passed down to the search)", "MoveGen::set_mask -> its abstract effect (new mask, cursor rewound; the real raw-pointer compaction is C10/C07)",
              "tracing::{Event::dispatch, DefaultCallsite::interest, __macro_support::__is_enabled, dispatcher::get_default} -> no event enabled (tracing's callsite registration trips an internal assertion of the Kani 0.68 compiler)"]
 PROPS["C11"] = {
     "title": "Search returns a legal move whenever the time limit may expire",
-    "groups": [dict(ENG, module="c11", only="^c11_")],
-    "functions": ["chess_engine::Engine::{search,search_with::<White|Black>} - the iterative-deepening root loop (previous-best probe, capture stage, remaining moves, discard-on-expiry, commit-on-completed-pass, stop on mate / on empty list)", "BoardList::new", "Policy::{is_better,update_cutoff}"],
-    "bounds": "root move list: <= 2 entries, <= 2 moves (a promotion destination counts four); expiry at poll index k <= 2 (every instant inside the first passes: between the previous-best probe and the capture stage, inside a stage, after a pass), each search call consuming 0..=2 further polls; "
-              "plus the rule 'never during pass 0, always from pass 1 on' with <= 2 non-promotion moves. Loop unwinding 5 (unwinding assertions on).",
-    "outside": "the recursion below the root (abstracted by contract A - the real alphabeta level is NOT checked against A: running it needs move_unchecked + legals + eval in one query); longer move lists and later expiry instants (the pass structure repeats); wall-clock DurationTimeout; 65536 passes (the depth counter: fixed, see known_findings.json)",
-    "stubs": ENG_STUBS, "assumptions": ["the timeout is monotone (once expired, stays expired)", "contract A for every search call"],
-    "level_text": "The real root loop runs against a symbolic move list, a symbolic expiry instant and an oracle for the deeper search. Decided for all of them at once: the search terminates, every move it searches and the move it returns belong to the list, no move is searched twice within a pass, "
-                  "an empty list gives 'no move' after a single pass, and when the limit cannot expire during the first pass a move is committed and the first pass searched every move exactly once.",
-    "level_note": "Assume-guarantee over the recursion; tiny bounds (measured: 3 moves x 3 expiry instants already exceeds 30 GB). What the oracle abstracts is stated in `outside`.",
+    "groups": [dict(ENG, module="c11", only="^c11_|c12_one_level")],
+    "functions": ["chess_engine::Engine::{search,search_with::<White|Black>} - the iterative-deepening root loop (previous-best probe, capture stage, remaining moves, discard-on-expiry, commit-on-completed-pass, stop on mate / empty list / deepest depth)",
+                  "Engine::alphabeta::<White|Black> - ONE real call at a symbolic depth d (through the hook verif_alphabeta): capture test, insufficient material, terminal detection, fifty-move and repetition draws, leaf evaluation call, child loop with timeout polls and cutoff",
+                  "BoardList::{new,add,count}", "Policy::{is_better,update_cutoff}"],
+    "bounds": "root loop: move list = set model with <= 3 symbolic moves; expiry at poll index k <= 2 (every instant inside the first passes), each search call consuming 0..=2 further polls; plus the rule 'never during pass 0, always from pass 1 on'. "
+              "One recursion level: depth d in 1..=1000, any remaining depth, any window, expiry index k <= 3, child list <= 2 moves. Loop unwinding 5 / 8 (unwinding assertions on).",
+    "outside": "more than 3 root moves / later expiry instants (the pass structure repeats); wall-clock DurationTimeout; the composition 'root loop + levels' is an induction over the depth argued in DESIGN.md section 4 C11, each step machine-checked, the composition itself not",
+    "stubs": ENG_STUBS, "assumptions": ["the timeout is monotone (once expired, stays expired)", "contracts A and M for the calls BELOW the real level (discharged for the real level itself by the one-level queries)"],
+    "level_text": "The real root loop runs against the set model of the move list, a symbolic expiry instant and an oracle for the search below. Decided for all of them at once: the search terminates; every move it searches and the move it returns belong to the position; no move is searched twice in a pass; "
+                  "the returned (move, score) was answered in the LAST COMPLETED pass (a pass cut short by the limit never leaks); an empty list gives 'no move' after a single pass; when the limit cannot expire in the first pass a move is committed and every move was searched exactly once. "
+                  "One real level of the recursion is shown to satisfy the contracts the oracle is assumed to satisfy (not a sentinel unless expired; mate distances >= depth), which closes the induction over the depth.",
+    "level_note": "Assume-guarantee over the recursion with both halves machine-checked (root loop under contracts; one level establishes the contracts from the contracts one level deeper). The real MoveGen is replaced by its set model (C10).",
     "design_ref": "DESIGN.md section 4 C11",
 }
 PROPS["C12"] = {
     "title": "A mate in one is always found and truthfully reported",
-    "groups": [dict(ENG, module="c11", only="^c12_")],
-    "functions": ["chess_engine::Engine::search_with root loop: best-score bookkeeping over Score's order, stop-on-mate"],
-    "bounds": "as C11 (<= 2 moves, expiry index k <= 2); the oracle's answers are arbitrary scores, 'mate in one for the mover' among them",
-    "outside": "the terminal detection inside alphabeta (no legal move + in check => mate score with the current depth, for the right colour) is NOT executed symbolically (it sits behind move_unchecked + legals in the same function); it is read, and its colour duality is pinned only through the policy lemmas of C13",
-    "stubs": ENG_STUBS, "assumptions": ["contract A; mate answers come from the oracle"],
-    "level_text": "Root-level half of the property: if a searched move's answer is 'mate in one for the mover' in a pass that completes, the search returns with exactly that score; a mate-in-one score for the mover is reported only if some searched move answered it, and then with a move.",
-    "level_note": "Only the root loop's handling of mate scores is decided; that a mating move's answer IS mate-in-one relies on alphabeta's terminal test, which is outside (stated).",
+    "groups": [dict(ENG, module="c11", only="^c12_|c11_first_pass")],
+    "functions": ["Engine::alphabeta terminal detection (no legal move + in check => mate score of the current depth for the side that moved; no legal move, not in check => draw) - real code, one level, both policies",
+                  "Engine::search_with root loop: best-score bookkeeping over Score's order, stop-on-mate, every root move searched in the first pass"],
+    "bounds": "one level: symbolic depth d (d = 1 is the mate-in-one case), any window, child list <= 2 moves, emptiness and check flag symbolic; root: as C11 (<= 3 moves, expiry index <= 2)",
+    "outside": "that 'no legal move' and 'in check' mean what they say is C01 / C03; mate in more than one is not part of the property",
+    "stubs": ENG_STUBS, "assumptions": ["contract M(d+1) for the calls below the real level"],
+    "level_text": "Both halves are decided on the real code. Terminal detection: a search call at depth d returns 'mate in d for the side that just moved' exactly when the position it reaches has no legal move and is in check (and a draw when it has none and is not in check), never a mate in d otherwise - for both colours. "
+                  "Root: if some root move is answered 'mate in one for the mover' in a pass that completes, the search returns with exactly that score and a move; a mate-in-one score is only reported if some move was answered so; and every root move is searched in the first pass (so a mating move cannot be skipped).",
+    "level_note": "Composition of the two halves (the answer of a root move IS the depth-1 call's result) is by the code's structure: the root loop passes the call's return value on unchanged - read, and exercised by the C11 root queries.",
     "design_ref": "DESIGN.md section 4 C12",
 }
 PROPS["C13"] = {
@@ -308,11 +314,16 @@ PROPS["C15"] = {
 PROPS["C07"] = {
     "title": "Safe API never violates an unchecked-operation precondition",
     "groups": [{"crate": "core", "module": "c07", "flags": STUB, "timeout_q": 1500, "timeout_t": 3000, "mem_q": 20, "jobs": 3},
-               {"crate": "core", "module": "c18", "timeout_q": 600},
-               {"crate": "bmi2", "module": "c18_bmi2", "flags": STUB, "timeout_q": 900},
-               {"crate": "core", "module": "c17", "timeout_q": 900, "timeout_t": 3000, "mem_q": 30, "jobs": 1},
+               # the bit-pop / nth sites (the full bitboard check is C18; here the two unchecked-operation sites)
+               {"crate": "core", "module": "c18", "only": "c18_pop|c18_nth_default", "timeout_q": 600},
+               {"crate": "bmi2", "module": "c18_bmi2", "only": "c18_bmi2_nth$", "flags": STUB, "timeout_q": 900},
+               # the book reads have their own check (C17, ~5-10 min); here only in the thorough tier
+               {"crate": "core", "module": "c17", "timeout_q": 900, "timeout_t": 3000, "mem_q": 30, "jobs": 1, "tier_only": "thorough"},
                {"crate": "core", "module": "c08", "timeout_q": 600, "seeded_family": {"pattern": r"_(\d+)$", "count": 2, "always": {"*": []}, "thorough_all": True}},
-               {"crate": "core", "module": "c04", "only": "c04_zobrist_folds|c04_standard", "timeout_q": 600}],
+               {"crate": "core", "module": "c04", "only": "c04_zobrist_folds|c04_standard", "timeout_q": 600},
+               # the construction-time limits the unchecked paths rely on: <= 16 men a side (18-slot move list), side not to
+               # move not in check (a king can never be captured, so king_sq always finds one) - C06's builder queries
+               dict(C06_FUNC, only="c06_build_accepts_exactly_playable_positions_(counts|rules_w$|rules_b$)")],
     "functions": ["Board::king_sq (pop_unchecked), RawBoard::{get,piece_of,piece_of_unchecked}, CastleRights::to_index (unreachable_unchecked), Board::move_unchecked_into incl. clock arithmetic", "MoveGen::set_mask raw-pointer compaction",
                   "BitBoard::{pop,pop_unchecked}, BitBoardIter::nth (both paths)", "chess_lookup::{rook_moves,bishop_moves} table index", "BookMovesIter::next unchecked reads", "capacity of the 18-slot move list: asserted per generator unit in the C01 queries (entries <= pieces of the kind, +2 for the pawn unit)"],
     "bounds": "each query from an ARBITRARY state satisfying the invariant the constructors establish (C06) and legal moves preserve (C02/C03) - one step suffices for sequences of any length; make-move with ANY clock values (0..=65535); set_mask with 0..=18 arbitrary entries; slider index: VERIF_SEED-chosen squares here, all 128 in C08",
